@@ -1,5 +1,5 @@
-(* RtTheorems.v — C01 and C02 for whole runs of accepted programs, linear connective fragment,
-   asynchronous mode.  The three Section hypotheses are the interfaces to the other parts of the
+(* RtTheorems.v — C01 and C02 for whole runs of accepted closed programs: every form, the two
+   polarized modes.  The three Section hypotheses are the interfaces to the other parts of the
    development (they are discharged there or remain open — see lib/manifest.d/C01.json):
 
      teq_ok                : the type equality of spec/TypEq.v satisfies `teq_laws` on the type
@@ -220,6 +220,12 @@ Definition example_drop_text : string :=
 let srv() : A = c : aff 1 <- new close self; <x, y> <- recv self; wait x; wait c; close y
 prc[a] : aff 1 = s : A <- new srv(); u : aff 1 <- new close self; drop u; drop s; print dropped; close self".
 
+(* contraction: the forward spawned by split has two providers; the message it relays makes it
+   duplicate itself (DUP) *)
+Definition example_split_text : string :=
+"prc[a] : rep 1 = print made; close self
+prc[b] : rep 1 = <x, y> <- split a; wait x; wait y; print done; close self".
+
 (* (number of processes left, labels printed, ended in quiescence without error) *)
 Definition run_text (txt : string) (md : exec_mode) (pick : nat -> nat -> nat) : option (nat * list string * bool) :=
   match parse_string txt with
@@ -237,6 +243,7 @@ Definition run_text (txt : string) (md : exec_mode) (pick : nat -> nat -> nat) :
   end.
 Definition run_example := run_text example_text.
 Definition run_example_drop := run_text example_drop_text.
+Definition run_example_split := run_text example_split_text.
 
 Definition text_in_fragment (txt : string) : Prop :=
   match parse_string txt with
@@ -245,3 +252,4 @@ Definition text_in_fragment (txt : string) : Prop :=
   end.
 Definition example_in_fragment : Prop := text_in_fragment example_text.
 Definition example_drop_in_fragment : Prop := text_in_fragment example_drop_text.
+Definition example_split_in_fragment : Prop := text_in_fragment example_split_text.
